@@ -145,6 +145,12 @@ def surgery_part(rep, tier, rng, drv, bad, enums=None):
     if enums:
         scripts += [gen_emph_script(rng, enums) for _ in range(800 if tier == "quick" else 30000)]
     res = surgery_compare(drv, har, scripts)
+    # the search for a failing input where model and code differ: both heaps go through the verified checkers (every link leads back,
+    # mates point at each other, siblings in source order with spans that do not overlap); a script after which the model's heap
+    # passes and token.c's does not is a concrete violation
+    dif = [(exp, impl) for cut, exp, impl in res if exp != impl and not impl.startswith("CRASH") and not exp.startswith("MODEL")]
+    vds = common.run_lines_par(drv, [x for pair in dif for x in pair], args=["heapcheck"], timeout=1200) if dif else []
+    verdict = {pair: (vds[2 * j], vds[2 * j + 1]) for j, pair in enumerate(dif)}
     hist = collections.Counter()
     nontriv = set()
     for sc, (cut, exp, impl) in zip(scripts, res):
@@ -154,6 +160,10 @@ def surgery_part(rep, tier, rng, drv, bad, enums=None):
         if exp != impl and links_ok(exp) and not links_ok(impl):
             bad.append((b"", cut, "surgery-links-broken", "an operation script on which the model keeps next/prev mutually consistent leaves token.c with a token whose "
                         "neighbour does not point back: implementation heap %s" % impl[:300]))
+        elif exp != impl and verdict.get((exp, impl), ("", ""))[0] == "111" and verdict[(exp, impl)][1] in ("110", "101", "100", "011", "010", "001", "000"):
+            vd = verdict[(exp, impl)][1]
+            bad.append((b"", cut, "surgery-heap-incoherent", "an operation script after which the model's heap is coherent leaves token.c with a heap the verified checkers reject "
+                        "(doubly-linked=%s mates-symmetric=%s source-order-and-spans=%s): implementation heap %s" % (vd[0], vd[1], vd[2], impl[:300])))
         elif exp != impl:
             bad.append((b"", cut, "surgery-model-vs-impl", "token.c and coq/model/TokenHeap.v differ on an operation script: model %s / implementation %s" % (exp[:200], impl[:200])))
     rep.cov["surgery_scripts"] = len(scripts)
@@ -355,7 +365,7 @@ def run(rep, tier, seed):
     for d, c, kind, what in bad:
         if kind in seen: continue
         seen.add(kind)
-        if kind in ("surgery-links-broken", "matcher-links-broken"):
+        if kind in ("surgery-links-broken", "matcher-links-broken", "surgery-heap-incoherent"):
             rep.violation(kind, what, dict(script=c, matcher=kind.startswith("matcher"), no_failing_input=False, replay_cmd="python3 check.py C15 --replay <this file>")); continue
         if kind in ("matcher-model-vs-impl", "matcher-model-stuck"):
             rep.violation(kind, what, dict(script=c, matcher=True, no_failing_input=True,
@@ -392,6 +402,11 @@ def replay(rep, r):
         rep.cov["samples"] = [r["script"]]
         c, e, i = surgery_compare(drv, common.build_harness("asan", "surgery"), [r["script"]])[0]
         print("script:", c); print("model :", e); print("impl  :", i)
+        if e != i and not i.startswith("CRASH") and not e.startswith("MODEL"):
+            ve, vi = common.run_lines(drv, [e, i], args=["heapcheck"])
+            print("verified checkers (doubly linked, mates symmetric, source order): model %s implementation %s" % (ve, vi))
+            if ve == "111" and vi != "111":
+                rep.violation("surgery-heap-incoherent", "token.c leaves a heap the verified checkers reject", r); return
         if e != i:
             rep.violation("surgery-model-vs-impl", "model and token.c differ", dict(r, no_failing_input=True))
         return
